@@ -54,7 +54,9 @@ SAFE_FIELD_NAMES = ["id", "name", "count", "ratio", "active", "items", "tags", "
                     "createdAt", "bestFriend", "URLPath", "camelCaseHTTPField", "snake_case_field", "Field9", "fooBar",
                     # keywords, soft keywords, pydantic-reserved names, leading underscores: all handled by aliases
                     "class", "from", "import", "in", "is", "None", "True", "match", "type", "copy", "json", "dict", "schema",
-                    "validate", "construct", "fields", "model_config", "model_fields", "_private", "_camelCase", "__dunderish"]
+                    "validate", "construct", "fields", "model_config", "model_fields", "_private", "_camelCase", "__dunderish",
+                    # reserved only AFTER snake_case conversion
+                    "modelConfig", "modelFields", "modelDump", "modelValidate", "Copy", "Json", "Schema"]
 # names that C18's findings are about (digit after stripping, merges, trim-to-keyword)
 DEFECT_FIELD_NAMES = ["_1x", "_9", "foo_bar", "FooBar", "_class", "_copy", "_id", "class_", "copy_", "x_1", "_"]
 FLOAT_LEXEMES = ["0.5", "-1.25", "2.0", "1e3", "1.5E2", "3.25e-2", "0.0", "10.75"]
@@ -204,12 +206,22 @@ def coercing(dn: Dict[str, Dict[str, Any]], t: List[Any], l: Dict[str, Any]) -> 
 
 
 FIELD_TRIGGERS = ["trigNullableListItem", "trigEnumInObjectDefault", "trigKeywordEnumDefault", "trigObjectInListDefault",
-                  "trigCoercingDefault", "trigObjectDefaultOnScalar"]
+                  "trigCoercingDefault", "trigObjectDefaultOnScalar", "trigDefaultLostIntro"]
 
 
-def field_triggers(cfg: Dict[str, Any], defs: List[Dict[str, Any]], f: Dict[str, Any]) -> Dict[str, bool]:
-    dn = by_name(defs)
+def effective_default(f: Dict[str, Any]) -> bool:
+    """twin of Lean InputGen.effectiveDefault: a default the SDL path emits and the introspection path cannot see"""
     d = f["default"]
+    if d is None:
+        return False
+    return is_nonnull(f["type"]) if d["k"] == "null" else True
+
+
+def field_triggers(cfg: Dict[str, Any], defs: List[Dict[str, Any]], f: Dict[str, Any], source: str = "sdl") -> Dict[str, bool]:
+    """twin of Lean InputSource.fieldTriggersSrc: the triggers of the emitted text are evaluated on what the generator sees
+    (no default literal reaches it on the introspection path), plus C06-F8's"""
+    dn = by_name(defs)
+    d = f["default"] if source == "sdl" else None
     bk = kind_of(cfg, dn, base_name(f["type"]))
     return {
         "trigNullableListItem": nullable_item_under_nonnull(False, f["type"]),
@@ -218,6 +230,7 @@ def field_triggers(cfg: Dict[str, Any], defs: List[Dict[str, Any]], f: Dict[str,
         "trigObjectInListDefault": d is not None and lit_obj_in_list(False, d),
         "trigCoercingDefault": d is not None and coercing(dn, f["type"], d),
         "trigObjectDefaultOnScalar": d is not None and d["k"] == "obj" and bk != "input",
+        "trigDefaultLostIntro": source != "sdl" and effective_default(f),
     }
 
 
@@ -243,7 +256,7 @@ def python_triggers(case: Dict[str, Any]) -> Dict[str, Any]:
     for d in case["defs"]:
         if d["kind"] == "input":
             out[d["name"]] = {"trigNameDefect": trig_name_defect(case["cfg"]["snake"], d["fields"]),
-                              "fields": {f["name"]: field_triggers(case["cfg"], case["defs"], f) for f in d["fields"]}}
+                              "fields": {f["name"]: field_triggers(case["cfg"], case["defs"], f, case.get("source", "sdl")) for f in d["fields"]}}
     return out
 
 
@@ -287,11 +300,12 @@ EXPLAINS = {
     "trigObjectInListDefault": ["default-mismatch"],
     "trigCoercingDefault": ["default-mismatch", "default-raises", "valid-value-rejected"],
     "trigObjectDefaultOnScalar": ["default-raises"],
+    "trigDefaultLostIntro": ["default-mismatch", "valid-value-rejected"],
     "trigNameDefect": ["generation-crash", "import-error", "valid-value-rejected", "required-not-enforced", "default-mismatch",
                        "server-default-mismatch", "class-missing"],
 }
 PRIORITY = ["trigKeywordEnumDefault", "trigEnumInObjectDefault", "trigObjectDefaultOnScalar", "trigObjectInListDefault",
-            "trigCoercingDefault", "trigNullableListItem", "trigNameDefect"]
+            "trigCoercingDefault", "trigDefaultLostIntro", "trigNullableListItem", "trigNameDefect"]
 
 
 def explain(signature: str, active: List[str]) -> Optional[str]:
@@ -675,27 +689,64 @@ def classes_of_module(module: ast.Module) -> List[Dict[str, Any]]:
     return out
 
 
+def enum_import_of(module: ast.Module) -> List[str]:
+    """the names of `from .enums import ...` (raw: order and repetitions as `get_used_enums()` returns them)"""
+    out: List[str] = []
+    for node in module.body:
+        if isinstance(node, ast.ImportFrom) and node.module == "enums" and node.level == 1:
+            out += [a.name for a in node.names]
+    return out
+
+
+def _observe_generator(schema: Any, c: Dict[str, Any]) -> Dict[str, Any]:
+    """the REAL InputTypesGenerator on one schema object: class IR of generate(), and for generate() and
+    generate(types_to_include=roots) the emitted class names and the enum import list"""
+    from ariadne_codegen.client_generators.input_types import InputTypesGenerator
+    from ariadne_codegen.client_generators.scalars import ScalarData
+
+    def make() -> Any:
+        scalars = {s["name"]: ScalarData(type_=s["typeName"], serialize=s["serialize"], graphql_name=s["name"]) for s in c["cfg"]["scalars"]}
+        return InputTypesGenerator(schema=schema, convert_to_snake_case=c["cfg"]["snake"], custom_scalars=scalars)
+
+    out: Dict[str, Any] = {"modules": []}
+    for roots in (None, c.get("roots")):
+        try:
+            mod = make().generate() if roots is None else make().generate(types_to_include=list(roots))
+        except Exception as e:  # noqa: BLE001
+            if roots is None:
+                return {"error": type(e).__name__}
+            out["modules"].append({"error": type(e).__name__})
+            continue
+        if roots is None:
+            out["classes"] = classes_of_module(mod)
+        out["modules"].append({"names": [n.name for n in mod.body if isinstance(n, ast.ClassDef)], "enumImport": enum_import_of(mod)})
+    return out
+
+
 def _classes_chunk(cases: List[Dict[str, Any]]) -> List[Dict[str, Any]]:
-    """child side: the REAL generator on the SDL of each case"""
-    from graphql import build_ast_schema, parse
+    """child side: the REAL generator on the schema built from the SDL of each case and on the schema obtained from it by
+    introspection (`build_client_schema(introspection_from_schema(schema))`: no `ast_node` anywhere)"""
+    from graphql import build_ast_schema, build_client_schema, introspection_from_schema, parse
 
     outs = []
     for c in cases:
         try:
-            from ariadne_codegen.client_generators.input_types import InputTypesGenerator
-            from ariadne_codegen.client_generators.scalars import ScalarData
-
             schema = build_ast_schema(parse(c["sdl"]))
-            scalars = {s["name"]: ScalarData(type_=s["typeName"], serialize=s["serialize"], graphql_name=s["name"]) for s in c["cfg"]["scalars"]}
-            try:
-                g = InputTypesGenerator(schema=schema, convert_to_snake_case=c["cfg"]["snake"], custom_scalars=scalars)
-                outs.append({"classes": classes_of_module(g.generate())})
-            except Exception as e:  # noqa: BLE001
-                outs.append({"error": type(e).__name__})
-        except (AttributeError, ImportError, TypeError) as e:
-            outs.append({"observer": repr(e)[:300]})
         except Exception as e:  # noqa: BLE001
             outs.append({"build_error": f"{type(e).__name__}: {e}"[:300]})
+            continue
+        o: Dict[str, Any] = {}
+        try:
+            o["sdl"] = _observe_generator(schema, c)
+            try:
+                client_schema = build_client_schema(introspection_from_schema(schema))
+            except Exception as e:  # noqa: BLE001   graphql-core cannot print a structured default of a custom scalar
+                o["intro"] = {"not_introspectable": f"{type(e).__name__}: {e}"[:200]}
+            else:
+                o["intro"] = _observe_generator(client_schema, c)
+        except (AttributeError, ImportError, TypeError) as e:
+            o = {"observer": repr(e)[:300]}
+        outs.append(o)
     return outs
 
 
@@ -769,9 +820,41 @@ def fixed_cases() -> List[Dict[str, Any]]:
     return out
 
 
+def strip_effective_defaults(case: Dict[str, Any]) -> Dict[str, Any]:
+    """remove every default the introspection path cannot see (what is left: `= null` on nullable types): the theorem region
+    of the introspection source"""
+    for d in case["defs"]:
+        if d["kind"] == "input":
+            for f in d["fields"]:
+                if effective_default(f):
+                    f["default"] = None
+    case["sdl"] = defs_sdl(case["defs"])
+    return case
+
+
+def pick_roots(rng: random.Random, case: Dict[str, Any]) -> List[str]:
+    """an argument for generate(types_to_include=...): some input names (repetitions allowed), now and then a name that is
+    not an input type"""
+    inputs = [d["name"] for d in case["defs"] if d["kind"] == "input"]
+    others = [d["name"] for d in case["defs"] if d["kind"] != "input"] + ["Nope"]
+    roots = rng.sample(inputs, rng.randint(0, len(inputs)))
+    if roots and rng.random() < 0.15:
+        roots.append(rng.choice(roots))
+    if rng.random() < 0.15:
+        roots.insert(rng.randint(0, len(roots)), rng.choice(others))
+    return roots
+
+
 def check_classes(ctx: Ctx, st: Optional[LeanStatus], res: Result, n: int) -> None:
     rng = ctx.sub_rng("classes")
-    cases = fixed_cases() + [gen_case(rng) for _ in range(n)]
+    cases = fixed_cases()
+    for i in range(n):
+        c = gen_case(rng)
+        if i % 6 == 5:
+            c = strip_effective_defaults(c)
+        cases.append(c)
+    for c in cases:
+        c["roots"] = pick_roots(rng, c)
     parts = chunks(cases, 40)
     _quiet_fork_warning()
     results = engine.pmap_forked(_classes_chunk, [(p,) for p in parts], timeout=300)
@@ -780,22 +863,31 @@ def check_classes(ctx: Ctx, st: Optional[LeanStatus], res: Result, n: int) -> No
         if status != "ok":
             raise common.Infra(f"classes chunk: {status} {val}")
         impl += val
-    model: Optional[List[Any]] = None
+    model: Dict[Tuple[int, str, str], Any] = {}
     if st is not None and st.driver_ok:
-        model = common.run_driver(PROP, [{"op": "classes", "cfg": cfg_wire(c["cfg"]), "defs": c["defs"]} for c in cases])
+        lines: List[Dict[str, Any]] = []
+        keys: List[Tuple[int, str, str]] = []
+        for i, (c, o) in enumerate(zip(cases, impl)):
+            if "observer" in o or "build_error" in o:
+                continue
+            for source in ("sdl", "intro"):
+                if "not_introspectable" in o[source]:
+                    continue
+                base = {"cfg": cfg_wire(c["cfg"]), "defs": c["defs"], "mode": source}
+                lines.append({"op": "classes", **base})
+                keys.append((i, source, "classes"))
+                lines.append({"op": "module", **base, "roots": None})
+                keys.append((i, source, "all"))
+                lines.append({"op": "module", **base, "roots": c["roots"]})
+                keys.append((i, source, "roots"))
+        model = dict(zip(keys, common.run_driver(PROP, lines)))
     for i, (c, o) in enumerate(zip(cases, impl)):
-        inp = {"kind": "classes", "sdl": c["sdl"], "cfg": c["cfg"]}
         if "observer" in o:
-            res.mismatches.append(Mismatch("classIR", inp, "observer: " + o["observer"], None))
+            res.mismatches.append(Mismatch("classIR", {"kind": "classes", "sdl": c["sdl"], "cfg": c["cfg"]}, "observer: " + o["observer"], None))
             continue
         if "build_error" in o:
             res.count("classes:schema-refused-by-graphql-core")
             continue
-        ptr = python_triggers(c)
-        act = active_triggers(ptr, list(ptr))
-        res.count("classes:clean" if not act else "classes:in-trigger-region")
-        for t in act:
-            res.count("region:" + t)
         n_fields = sum(len(d["fields"]) for d in c["defs"] if d["kind"] == "input")
         n_defaults = sum(1 for d in c["defs"] if d["kind"] == "input" for f in d["fields"] if f["default"] is not None)
         res.count("classes:fields", n_fields)
@@ -807,17 +899,30 @@ def check_classes(ctx: Ctx, st: Optional[LeanStatus], res: Result, n: int) -> No
                         res.count("default-kind:" + f["default"]["k"])
                     if real_py_name(c["cfg"]["snake"], f["name"]) != f["name"]:
                         res.count("classes:aliased-fields")
-        res.seen([c["sdl"], c["cfg"]], nontrivial=n_fields > 0)
-        if model is not None:
-            m = model[i]
-            if not same_classes(o, model_classes(m)):
+        for source in ("sdl", "intro"):
+            tag = "classes" if source == "sdl" else "classes-intro"
+            oo = o[source]
+            if "not_introspectable" in oo:
+                res.count("classes-intro:schema-not-introspectable (structured default of a custom scalar; graphql-core)")
+                continue
+            inp = {"kind": "classes", "sdl": c["sdl"], "cfg": c["cfg"], "source": source}
+            ptr = python_triggers({**c, "source": source})
+            act = active_triggers(ptr, list(ptr))
+            res.count(f"{tag}:clean" if not act else f"{tag}:in-trigger-region")
+            for t in act:
+                res.count(("region:" if source == "sdl" else "region-intro:") + t)
+            res.seen([c["sdl"], c["cfg"], source], nontrivial=n_fields > 0)
+            if not model:
+                continue
+            m = model[(i, source, "classes")]
+            if not same_classes(oo, model_classes(m)):
                 # the model reproduces the generator inside the finding regions too; a difference that is confined to
                 # classes inside a region is reported as such (a repaired finding must not read as a violation)
-                bad = differing_classes(o, model_classes(m))
+                bad = differing_classes(oo, model_classes(m))
                 region = None
                 if bad is not None and bad and all(active_triggers(ptr, [b]) for b in bad):
                     region = active_triggers(ptr, bad)[0]
-                res.mismatches.append(Mismatch("classIR", inp, o, model_classes(m), trigger=region))
+                res.mismatches.append(Mismatch("classIR" if source == "sdl" else "classIR-introspection", inp, oo, model_classes(m), trigger=region))
             ltr = lean_triggers(m["triggers"])
             if ltr != ptr:
                 diff = {t: {f: (ptr[t]["fields"].get(f), ltr.get(t, {}).get("fields", {}).get(f)) for f in ptr[t]["fields"]
@@ -827,13 +932,32 @@ def check_classes(ctx: Ctx, st: Optional[LeanStatus], res: Result, n: int) -> No
             if (not act) != bool(m["supported"]):
                 res.mismatches.append(Mismatch("supported", inp, not act, m["supported"]))
             # the hypothesis of the acceptance theorem (`InputRel.related`) is what the generator establishes outside
-            # the triggers: measured here on every trigger-free case
+            # the triggers: measured here on every trigger-free case, for both sources
             if not act:
-                res.count("classes:related-holds" if m["related"] else "classes:related-fails")
+                res.count(f"{tag}:related-holds" if m["related"] else f"{tag}:related-fails")
                 if not m["related"]:
                     res.mismatches.append(Mismatch("related", inp, "no trigger fires", "InputRel.related = false"))
-            if i < 3:
-                res.sample({"input": c["sdl"][:400], "impl": o.get("classes", o)[:1] if isinstance(o.get("classes"), list) else o, "model_agrees": True})
+                # WF_06 / WF_06_src: there Proved_06 is a theorem (C06.proved_06_of_wf, proved_06_src_of_wf); elsewhere it is this
+                # measurement only
+                res.count(f"{tag}:Proved_06-is-a-theorem (WF_06)" if m.get("wf") else
+                          f"{tag}:Proved_06-measured-only (object-literal default / structured literal on a custom scalar)")
+            # class selection and the enum import of generate() / generate(types_to_include=roots)
+            if "error" not in oo:
+                for which, real_mod, roots in (("all", oo["modules"][0], None), ("roots", oo["modules"][1], c["roots"])):
+                    mm = model[(i, source, which)]
+                    res.count(f"{tag}:module-{which}")
+                    if roots is not None:
+                        res.count("module:roots", len(roots))
+                        res.count("module:classes-emitted", len(real_mod.get("names", [])))
+                        res.count("module:enum-import-names", len(real_mod.get("enumImport", [])))
+                    # isort sorts and de-duplicates the names of one `from ... import`: order and repetitions of the enum list
+                    # are not part of the property
+                    got = {"names": mm.get("names"), "enumImport": sorted(set(mm.get("enumImport") or []))}
+                    real_mod = {**real_mod, "enumImport": sorted(set(real_mod.get("enumImport") or []))} if "enumImport" in real_mod else real_mod
+                    if real_mod != got:
+                        res.mismatches.append(Mismatch("module(class selection, enum import)", {**inp, "roots": roots}, real_mod, got))
+            if i < 3 and source == "sdl":
+                res.sample({"input": c["sdl"][:400], "impl": oo.get("classes", oo)[:1] if isinstance(oo.get("classes"), list) else oo, "model_agrees": True})
 
 
 # --------------------------------------------------------------------------------------------
@@ -1018,6 +1142,33 @@ def same_results(a: Any, b: Any) -> bool:
 HELPERS_SRC = "def ser(v):\n    return v\n"
 
 
+def queries_for(defs: List[Dict[str, Any]], roots: List[str]) -> str:
+    """an operation whose variables are typed with the inputs `roots` (argument a<i> of Query.q takes the i-th input type:
+    defs_sdl); with no roots the operation uses no input at all"""
+    inputs = [d["name"] for d in defs if d["kind"] == "input"]
+    used = [(i, n) for i, n in enumerate(inputs) if n in roots]
+    if not used:
+        return "query Q { q }"
+    vars_ = ", ".join(f"$v{i}: {n}" for i, n in used)
+    args = ", ".join(f"a{i}: $v{i}" for i, n in used)
+    return f"query Q({vars_}) {{ q({args}) }}"
+
+
+def expected_types(case: Dict[str, Any]) -> List[str]:
+    """the input types the package must contain: all of them, or (include_all_inputs = false) those the operation's variables
+    reach - decided here from the definitions, independently of the Lean model"""
+    inputs = [d["name"] for d in case["defs"] if d["kind"] == "input"]
+    prune = case.get("prune")
+    if prune is None:
+        return inputs
+    keep: List[str] = []
+    for r in prune["roots"]:
+        for t in reachable_types(case["defs"], r):
+            if t not in keep:
+                keep.append(t)
+    return [n for n in inputs if n in keep]
+
+
 def to_plain(v: Any) -> Any:
     """a Python value as the JSON the Lean driver prints for `PV` (Driver/C06.lean encPV)"""
     import enum
@@ -1062,8 +1213,21 @@ def _package_case(root: Path, case: Dict[str, Any]) -> Dict[str, Any]:
     if case["cfg"]["scalars"]:
         cfg["scalars"] = {s["name"]: {k: v for k, v in (("type", s["typeName"]), ("serialize", s["serialize"])) if v} for s in case["cfg"]["scalars"]}
         (root / "scalar_helpers.py").write_text(HELPERS_SRC)
+    prune = case.get("prune")
+    if prune is not None:
+        cfg["include_all_inputs"] = False
+        cfg["include_all_enums"] = bool(prune["all_enums"])
+    queries = queries_for(case["defs"], prune["roots"] if prune is not None else [])
     try:
-        gen = engine.generate_client(root, case["sdl"], "query Q { q }", cfg)
+        if case.get("source", "sdl") == "intro":
+            # the schema is obtained by introspection of an in-process endpoint (no ast_node on any schema object)
+            from . import c19
+
+            cfg["remote_schema_url"] = "http://verif.test/graphql"
+            with c19.patched_httpx(c19.graphql_server(case["sdl"])):
+                gen = engine.generate_client(root, None, queries, cfg)
+        else:
+            gen = engine.generate_client(root, case["sdl"], queries, cfg)
     except BaseException as e:  # noqa: BLE001
         return {"gen_error": type(e).__name__, "refusal": engine.classify_exception(type(e).__name__), "msg": str(e)[:300]}
     try:
@@ -1259,11 +1423,33 @@ def default_hits_nullable_item(case: Dict[str, Any], scope: List[str]) -> bool:
     return False
 
 
+def value_lacks_flipped(dn: Dict[str, Dict[str, Any]], t: List[Any], v: Any) -> bool:
+    """does the value leave out (at any input-object level) a non-null field that has a schema default?  On the
+    introspection path C06-F8 makes exactly those fields required"""
+    if t[0] == "nonnull":
+        return value_lacks_flipped(dn, t[1], v)
+    if v is None:
+        return False
+    if t[0] == "list":
+        return isinstance(v, list) and any(value_lacks_flipped(dn, t[1], x) for x in v)
+    d = dn.get(t[1])
+    if d is not None and d["kind"] == "input" and isinstance(v, dict):
+        for f in d["fields"]:
+            if f["name"] not in v:
+                if is_nonnull(f["type"]) and f["default"] is not None:
+                    return True
+            elif value_lacks_flipped(dn, f["type"], v[f["name"]]):
+                return True
+    return False
+
+
 def judge_package(case: Dict[str, Any], obs: Dict[str, Any], trigs: Dict[str, Any], res: Result) -> None:
     """the property on the real code; every deviation is a Failure with the trigger that explains it (or None)"""
     dn = by_name(case["defs"])
-    inp = {"kind": "package", "sdl": case["sdl"], "cfg": case["cfg"]}
-    all_inputs = [d["name"] for d in case["defs"] if d["kind"] == "input"]
+    intro = case.get("source", "sdl") == "intro"
+    inp = {"kind": "package", "sdl": case["sdl"], "cfg": case["cfg"], "source": case.get("source", "sdl"), "prune": case.get("prune")}
+    # only an emitted class can break generation / the import
+    all_inputs = expected_types(case)
 
     def fail(sig: str, scope: List[str], detail: str, extra: Optional[Dict[str, Any]] = None, only: Optional[List[str]] = None) -> None:
         act = active_triggers(trigs, scope)
@@ -1290,9 +1476,11 @@ def judge_package(case: Dict[str, Any], obs: Dict[str, Any], trigs: Dict[str, An
             if fi["py"] is None:
                 fail("class-missing", [tname], f"{tname}.{fn}: no model field carries this GraphQL name", {"type": tname, "field": fn})
             elif fi["required_model"] != fi["required_schema"]:
+                fdef0 = next(f for f in dn[tname]["fields"] if f["name"] == fn)
+                flipped = intro and is_nonnull(fdef0["type"]) and fdef0["default"] is not None and not fi["required_schema"]
                 fail("required-not-enforced" if fi["required_schema"] else "valid-value-rejected", [tname],
                      f"{tname}.{fn}: required in schema={fi['required_schema']} in model={fi['required_model']}", {"type": tname, "field": fn},
-                     only=["trigNameDefect"])
+                     only=["trigNameDefect"] + (["trigDefaultLostIntro"] if flipped else []))
         for rec in info["values"]:
             res.count("oracle:values")
             if "ok" not in rec["coerced"]:
@@ -1300,7 +1488,8 @@ def judge_package(case: Dict[str, Any], obs: Dict[str, Any], trigs: Dict[str, An
                 continue
             res.count("oracle:values-accepted-by-graphql-core")
             v = rec["value"]
-            hits_f1 = value_hits_nullable_item(dn, t_named(tname), v) or default_hits_nullable_item(case, scope)
+            hits_f1 = value_hits_nullable_item(dn, t_named(tname), v) or (not intro and default_hits_nullable_item(case, scope))
+            hits_f8 = intro and value_lacks_flipped(dn, t_named(tname), v)
             for how in ("alias", "name", "kw", "members"):
                 r = rec[how]
                 if "ok" in r:
@@ -1309,7 +1498,8 @@ def judge_package(case: Dict[str, Any], obs: Dict[str, Any], trigs: Dict[str, An
                     fail("default-raises", scope, f"{tname} built {how} from {json.dumps(v)[:200]}: {r}", {"type": tname, "value": v, "how": how})
                 else:
                     # a ValidationError raised by a default_factory of a NESTED class is indistinguishable from a refusal
-                    only = ["trigNameDefect", "trigCoercingDefault"] + (["trigNullableListItem"] if hits_f1 else [])
+                    only = (["trigNameDefect", "trigCoercingDefault"] + (["trigNullableListItem"] if hits_f1 else [])
+                            + (["trigDefaultLostIntro"] if hits_f8 else []))
                     fail("valid-value-rejected", scope, f"{tname} built {how} from {json.dumps(v)[:200]}: {r}",
                          {"type": tname, "value": v, "how": how}, only=only)
             for fn, r in rec.get("lacking", {}).items():
@@ -1335,7 +1525,9 @@ def judge_package(case: Dict[str, Any], obs: Dict[str, Any], trigs: Dict[str, An
                         act_all = active_triggers(trigs, scope)
                         res.failures.append(Failure("default-raises", explain("default-raises", act_all), {**inp, **ext}, f"{tname} without {fn}: {e}"[:500]))
                     else:
-                        only = ["trigNameDefect", "trigCoercingDefault"] + (["trigNullableListItem"] if hits_f1 else [])
+                        lost_here = intro and (hits_f8 or (is_nonnull(fdef["type"]) and fdef["default"] is not None))
+                        only = (["trigNameDefect", "trigCoercingDefault"] + (["trigNullableListItem"] if hits_f1 else [])
+                                + (["trigDefaultLostIntro"] if lost_here else []))
                         fail("valid-value-rejected", scope, f"{tname} without {fn}: {e}", ext, only=only)
                     continue
                 if not plain_matches(dn, rb["attr"], want):
@@ -1385,6 +1577,7 @@ def pydantic_lines(case: Dict[str, Any], obs: Dict[str, Any], lax: Dict[str, Any
             pairs.append((rec["value"], rec["alias"]))
         if pairs:
             out.append(({"op": "construct", "cfg": cfg_wire(case["cfg"]), "defs": case["defs"], "cls": tname, "lax": lax, "acc": [],
+                         "mode": case.get("source", "sdl"), "roots": case["prune"]["roots"] if case.get("prune") is not None else None,
                          "values": [wire.enc(v) for v, _ in pairs]}, pairs))
     return out
 
@@ -1401,14 +1594,28 @@ def compare_pydantic(case: Dict[str, Any], tname: str, pairs: List[Tuple[Any, Di
         elif "ok" not in real and "ok" not in m:
             ok = real["err"] == m["err"] or (real["err"].startswith("default:") and m["err"].startswith("default:"))
         if not ok:
-            res.mismatches.append(Mismatch("construct", {"kind": "package", "sdl": case["sdl"], "cfg": case["cfg"], "type": tname, "value": v},
+            res.mismatches.append(Mismatch("construct", {"kind": "package", "sdl": case["sdl"], "cfg": case["cfg"], "source": case.get("source", "sdl"),
+                                                         "prune": case.get("prune"), "type": tname, "value": v},
                                            {k: real[k] for k in real if k != "msg"}, m, trigger=region))
+
+
+def introspectable(sdl: str) -> bool:
+    """graphql-core cannot print a list / object default of a custom scalar (`Cannot convert value to AST`): such a schema
+    cannot be served to an introspection query at all"""
+    from graphql import build_schema, introspection_from_schema
+
+    try:
+        introspection_from_schema(build_schema(sdl))
+        return True
+    except Exception:  # noqa: BLE001
+        return False
 
 
 def make_probes(case: Dict[str, Any], rng: random.Random, n_values: int, n_corrupt: int) -> Dict[str, Any]:
     probes: Dict[str, Any] = {}
+    expected = expected_types(case)
     for d in case["defs"]:
-        if d["kind"] != "input":
+        if d["kind"] != "input" or d["name"] not in expected:
             continue
         vals = [gen_value(case, ["nonnull", t_named(d["name"])], rng) for _ in range(n_values)]
         # always include the smallest value (required fields only) so that every default is read back at least once
@@ -1452,7 +1659,21 @@ def check_packages(ctx: Ctx, st: Optional[LeanStatus], res: Result, n: int, labe
     cases = []
     for _ in range(n):
         c = gen_case(rng)
+        r = rng.random()
+        # schema_path | remote_schema_url (introspection), include_all_inputs true | false with an operation that uses some inputs
+        c["source"] = "intro" if r < 0.3 else "sdl"
+        if c["source"] == "intro":
+            if rng.random() < 0.5:
+                c = strip_effective_defaults(c)  # the theorem region of the introspection source
+            if not introspectable(c["sdl"]):
+                c["source"] = "sdl"
+        c["prune"] = None
+        if rng.random() < 0.35:
+            inputs = [d["name"] for d in c["defs"] if d["kind"] == "input"]
+            c["prune"] = {"roots": sorted(rng.sample(inputs, rng.randint(0 if len(inputs) > 1 else 1, max(1, len(inputs) - 1)))),
+                          "all_enums": rng.random() < 0.5}
         c["probes"] = make_probes(c, rng, 4, 4)
+        res.count(f"{label}:source-{c['source']}:{'all-inputs' if c['prune'] is None else 'used-inputs-only'}")
         cases.append(c)
     run_packages(ctx, st, res, cases, label)
 
@@ -1512,6 +1733,8 @@ def replay_corpus(ctx: Ctx, st: Optional[LeanStatus], res: Result) -> None:
     for f in files:
         payload = json.loads(f.read_text())
         c = case_from_sdl(payload["sdl"], payload.get("cfg"))
+        c["source"] = payload.get("source", "sdl")
+        c["prune"] = payload.get("prune")
         c["probes"] = {t: {"values": vs, "corrupt": []} for t, vs in payload["probes"].items()}
         cases.append(c)
         metas.append(payload)
@@ -1521,7 +1744,8 @@ def replay_corpus(ctx: Ctx, st: Optional[LeanStatus], res: Result) -> None:
     run_packages(ctx, st, sub, cases, "corpus")
     for payload, c in zip(metas, cases):
         fid = payload.get("finding")
-        mine = [f for f in sub.failures if f.input.get("sdl") == c["sdl"]]
+        mine = [f for f in sub.failures if f.input.get("sdl") == c["sdl"] and f.input.get("source", "sdl") == c["source"]
+                and f.input.get("prune") == c["prune"]]
         if fid:
             hit = [f for f in mine if f.trigger == payload["trigger"] and f.signature in payload["signature"]]
             res.witness_status[fid] = "reproduces" if hit else "gone"
@@ -1545,6 +1769,13 @@ def fingerprint_items() -> List[Tuple[str, Optional[str]]]:
         (GEN_DIR + "input_fields.py", "parse_input_const_value_node"),
         (GEN_DIR + "input_types.py", "InputTypesGenerator._parse_input_definition"),
         (GEN_DIR + "input_types.py", "InputTypesGenerator._process_field_value"),
+        (GEN_DIR + "input_types.py", "InputTypesGenerator._save_dependencies"),
+        (GEN_DIR + "input_types.py", "InputTypesGenerator.generate"),
+        (GEN_DIR + "input_types.py", "InputTypesGenerator.get_used_enums"),
+        (GEN_DIR + "input_types.py", "InputTypesGenerator._filter_class_defs"),
+        (GEN_DIR + "input_types.py", "InputTypesGenerator._get_dependencies_of_type"),
+        (GEN_DIR + "package.py", "PackageGenerator._generate_input_types"),
+        ("ariadne_codegen/schema.py", "get_graphql_schema_from_url"),
         (GEN_DIR + "scalars.py", "generate_input_scalar_annotation"),
         (GEN_DIR + "enums.py", "EnumsGenerator._parse_enum_definition"),
         (GEN_DIR + "dependencies/base_model.py", "BaseModel"),
@@ -1557,11 +1788,15 @@ def fingerprint_items() -> List[Tuple[str, Optional[str]]]:
 
 def run(ctx: Ctx, st: Optional[LeanStatus]) -> Result:
     res = Result()
-    res.rule = ("seeded input-type definitions (half of them repaired until no finding trigger fires): class IR of the real "
-                "InputTypesGenerator vs the Lean model; graphql-core coercion vs Spec/CoerceInput; real pydantic on really generated "
-                "packages vs Spec/PydInput; and the property oracle on those packages. A case is non-trivial when the schema has at "
-                "least one input field / the value is accepted by graphql-core / the probe value is not the empty object; distinct = "
-                "distinct (SDL, configuration[, type, value])")
+    res.rule = ("seeded input-type definitions (half of them repaired until no finding trigger fires; one in six without any default the "
+                "introspection path would lose): class IR, emitted class selection and enum import list of the real InputTypesGenerator "
+                "(generate() and generate(types_to_include=roots)) on the schema built from SDL AND on the schema obtained from it by "
+                "introspection vs the Lean model; graphql-core coercion vs Spec/CoerceInput; real pydantic on packages really generated "
+                "by main.client (schema_path or remote_schema_url served in-process; include_all_inputs true, or false with an operation "
+                "that uses some inputs, include_all_enums on/off) vs Spec/PydInput; and the property oracle on those packages, the import "
+                "of every generated module included. A case is non-trivial when the schema has at least one input field / the value is "
+                "accepted by graphql-core / the probe value is not the empty object; distinct = distinct (SDL, configuration, source"
+                "[, type, value])")
     res.extra["fingerprints"] = common.fingerprints(ctx, fingerprint_items())
     engine.cleanup_scratch()
     replay_corpus(ctx, st, res)
@@ -1574,8 +1809,15 @@ def run(ctx: Ctx, st: Optional[LeanStatus]) -> Result:
         "Upload fields: only null/absent (an Upload instance has no JSON form)",
         "object-literal defaults: default_readback is proved for literal shapes without object literals; defaults containing object "
         "literals are covered by the construct correspondence (real pydantic vs Spec/PydInput) and the oracle",
-        "Proved_06 (InputRel.related) is evaluated by the driver on every trigger-free generated case (input_distribution "
-        "classes:related-holds / related-fails); that the generator establishes it whenever no trigger fires is measured, not proved",
+        "Proved_06 (InputRel.related) is evaluated by the driver on every trigger-free generated case, for both schema sources "
+        "(input_distribution classes:related-holds / classes-intro:related-holds / related-fails). That the generator establishes "
+        "it is a THEOREM on the decidable class WF_06 / WF_06_src (C06.proved_06_of_wf, proved_06_src_of_wf: plain default "
+        "literals; input_distribution classes:Proved_06-is-a-theorem, classes-intro:Proved_06-is-a-theorem); for trigger-free schemas "
+        "with object-literal defaults or structured literals on custom scalars (…:Proved_06-measured-only) it is measured, not proved",
+        "pruned packages (include_all_inputs = false): the pydantic reference semantics runs on the definitions without the "
+        "unselected input types (InputDeps.emittedDefs); that this is the module of the selected classes is validated by the "
+        "construct correspondence, not proved; which inputs an operation uses is C09's / C03's subject (here: the variables' types)",
+        "schemas whose introspection graphql-core cannot serve (list / object default of a custom scalar) are generated from SDL only",
     ]
     res.assumptions += [
         "canonical form: IDs as strings, enum values by name, lists as lists, custom scalars typed as configured (DESIGN.md §3.0)",
@@ -1599,6 +1841,8 @@ def replay(ctx: Ctx, payload: Dict[str, Any]) -> int:
         print(json.dumps(payload, indent=1)[:3000])
         return 1
     c = case_from_sdl(inp["sdl"], inp.get("cfg"))
+    c["source"] = inp.get("source", "sdl")
+    c["prune"] = inp.get("prune")
     rng = random.Random(0)
     if "type" in inp and "value" in inp and isinstance(inp["value"], dict):
         c["probes"] = {inp["type"]: {"values": [inp["value"]], "corrupt": []}}
